@@ -30,7 +30,7 @@ ASSUMPTIONS = [
 
 
 def BOUNDS(tier):
-    return {"plane_strain_families": ["quad/hexahedron", "quad8/hexahedron20", "quad9/hexahedron27"], "revolve_segments": [16, 32, 64], "bulk": [5.0, 50.0, 5000.0], "substeps": [1, 2, 3], "grid_sizes": "1..4 per axis"}
+    return {"plane_strain_families": ["quad/hexahedron", "quad8/hexahedron20", "quad9/hexahedron27"], "revolve_segments": [16, 32, 64], "bulk": [5.0, 50.0, 5000.0], "substeps": [1, 2, 3], "grid_sizes": "1..4 per axis", "restart_histories": "bodies re-created on the deformed fields after every substep (2, 3 substeps)"}
 
 
 def plan(tier, seed):
